@@ -5,6 +5,7 @@ package et
 import (
 	"fmt"
 	"runtime"
+	"strconv"
 	"time"
 
 	"pgregory.net/rapid"
@@ -58,15 +59,25 @@ func Model(evs []Event, ooo int64) []Arrival {
 
 // TsVal encodes a ms timestamp for the engine in the given unit and Go kind.
 func TsVal(ms int64, unit string, kind string) any {
+	if kind == "time" {
+		return time.UnixMilli(ms)
+	}
 	x := ms
-	if unit == "ss" {
+	switch unit {
+	case "ss":
 		x = ms / 1000
+	case "mi":
+		x = ms / 60000
+	case "ns":
+		x = ms * 1000000
 	}
 	switch kind {
 	case "int64":
 		return x
 	case "float64":
 		return float64(x)
+	case "string":
+		return strconv.FormatInt(x, 10)
 	default:
 		return int(x)
 	}
